@@ -218,7 +218,7 @@ int main(int argc, char **argv)
 	} else if (!strcmp(VF.space, "giant")) {
 		/* one call with 2^31 and more bytes (the length is a size_t): a 1 MiB block mapped again and again gives a buffer of that
 		 * size without the memory; whole == the same bytes fed in 1 MiB pieces */
-		static const uint64_t lens[] = { 0x7FFFFFFFull, 0x80000000ull, 0x80000005ull, 0x100000000ull };
+		static const uint64_t lens[] = { 0x7FFFFFFFull, 0x80000000ull, 0x80000005ull, 0x100000000ull, 0xFFFFFFFFull, 0x100000005ull };
 		unsigned li;
 		int fd = memfd_create("crcblock", 0);
 		uint8_t *blk, *base;
@@ -232,7 +232,7 @@ int main(int argc, char **argv)
 		for (li = 0; li < sizeof lens / sizeof *lens; ++li) {
 			uint64_t L = lens[li], done = 0;
 			uint16_t whole = 0x1234, pieces = 0x1234;
-			if (L > 0x90000000ull && !VF.thorough) continue;
+			if (li > 3 && !VF.thorough) continue;
 			if (!vf_case("one call with %llu bytes against the same bytes in 1 MiB pieces", (unsigned long long) L)) continue;
 			lha_crc16_buf(&whole, base + 3, (size_t) L);
 			while (done < L) { size_t k = L - done < mb ? (size_t) (L - done) : mb; lha_crc16_buf(&pieces, base + 3 + done, k); done += k; }
